@@ -134,7 +134,12 @@ pub fn main() -> i32 {
             }
         }
     }
-    let ctx = Ctx::new(&id, tier, seed as u64);
+    // checks whose thorough bounds cost seconds (measured: C04 3 s, C08 12 s, C17 16 s, C19 1 s, C20 2 s) use them in both tiers
+    let cheap = ["C04", "C08", "C17", "C19", "C20"];
+    let bounds = if tier == Tier::Quick && cheap.contains(&id.as_str()) { Tier::Thorough } else { tier };
+    let mut ctx = Ctx::new(&id, bounds, seed as u64);
+    ctx.asked_tier = tier;
+    let ctx = ctx;
     eprintln!("[{}] tier={} repo={} tree_hash={}", id, tier.name(), env!("VERIF_REPO"), env!("VERIF_REPO_HASH"));
     let running = std::sync::atomic::AtomicBool::new(true);
     std::thread::scope(|sc| {
@@ -173,7 +178,7 @@ fn hang_exit(ctx: &Ctx, prop: &props::Prop, seed: i64, e: &util::WatchEntry) -> 
     ctx.add_family(super::FamilyStats { name: format!("{}-interrupted", e.family), exhaustive: false, cap_hit: Some(format!("interrupted by a hanging case after {} s", secs)), ..Default::default() });
     let groups = ctx.violations.lock().unwrap().iter().map(|(_, (n, _))| *n).sum::<u64>() + 1;
     write_evidence(ctx, prop, seed, groups, &BTreeMap::new());
-    println!("[{}] VIOLATED tier={} (interrupted: hanging case in family {}) wall={:.1}s", ctx.property, ctx.tier.name(), e.family, ctx.start.elapsed().as_secs_f64());
+    println!("[{}] VIOLATED tier={} (interrupted: hanging case in family {}) wall={:.1}s", ctx.property, ctx.asked_tier.name(), e.family, ctx.start.elapsed().as_secs_f64());
     std::process::exit(1)
 }
 
@@ -297,7 +302,7 @@ fn finish(ctx: &Ctx, prop: &props::Prop, seed: i64) -> i32 {
         "[{}] {} tier={} families={} evaluations={} unlisted_violation_groups={} known_findings={} wall={:.1}s",
         ctx.property,
         if exit == 0 { "HELD" } else if exit == 1 { "VIOLATED" } else { "MACHINERY-ERROR" },
-        ctx.tier.name(),
+        ctx.asked_tier.name(),
         fams.len(),
         evals,
         unlisted_groups.len(),
@@ -376,7 +381,7 @@ fn write_evidence(ctx: &Ctx, prop: &props::Prop, seed: i64, unlisted: u64, known
     coverage.insert("repo".into(), json!(env!("VERIF_REPO")));
     let ev = json!({
         "property_id": ctx.property,
-        "tier": ctx.tier.name(),
+        "tier": ctx.asked_tier.name(),
         "seed": seed,
         "level": prop.level,
         "coverage": coverage,
